@@ -209,6 +209,9 @@ def call_builtin(ex, name, args, kw, st, where, env):
             if not x.items:
                 yield EmptyColl("map"), st
                 return
+            # values known not to be None are stored unwrapped
+            x = PyDict([(k, (v_unwrap(v) if isinstance(v, Sym) and isinstance(v.ty, OptTy) and ex.entails(st, v_not(v_is_none(v))) else v))
+                        for k, v in x.items])
             kt, vt = ty_of(x.items[0][0]), ty_of(x.items[0][1])
             for _, v in x.items:
                 vt = unify(vt, ty_of(v), x.items[0][1], v) if ty_of(v) != vt else vt
